@@ -15,6 +15,9 @@ CHECKS = {
     "C01": {"parts": [P("lookup", "./c01", "^TestC01$")]},
     "C02": {"parts": [P("quorum-intersection", "./c02", "^TestC02$")]},
     "C03": {"parts": [P("instance-ring", "./c03", "^TestC03Instances$"), P("partition-ring", "./c03", "^TestC03Partitions$")]},
+    "C04": {"parts": [P("tombstones", "./gossip", "^TestC04$", budget={"quick": 240, "thorough": 1500})]},
+    "C06": {"parts": [P("convergence", "./gossip", "^TestC06Convergence$", budget={"quick": 240, "thorough": 1500}),
+                      P("malformed", "./gossip", "^TestC06Malformed$"), P("invalidation", "./gossip", "^TestC06Invalidates$"), P("queued-gossip", "./gossip", "^TestC06Queue$")]},
     "C05": {"parts": [P("merge-bfs", "./c05", "^TestC05$")]},
     "C10": {"parts": [P("dobatch", "./c10", "^TestC10$", shards={"quick": 16, "thorough": 16}, budget={"quick": 200, "thorough": 1200}, gomaxprocs=1,
                       overlay=[{"file": "ring/batch.go", "rewrite": ['"sync"', '"go.uber.org/atomic"']}])]},
